@@ -317,6 +317,7 @@ func downstream(cmds []ast.Command, comments []*ast.Comment, r wproto.Req, resp 
 		os.Chdir(r.Dir)
 	}
 	var words []ast.Word
+	var nodes []ast.Node
 	var walk func(v reflect.Value, depth int)
 	nodeT := reflect.TypeOf((*ast.Node)(nil)).Elem()
 	walk = func(v reflect.Value, depth int) {
@@ -335,6 +336,10 @@ func downstream(cmds []ast.Command, comments []*ast.Comment, r wproto.Req, resp 
 			n += 2
 			if w, ok := nd.(ast.Word); ok {
 				words = append(words, w)
+			}
+			switch nd.(type) {
+			case ast.Command, ast.Word, ast.WordPart, *ast.Comment:
+				nodes = append(nodes, nd)
 			}
 		}
 		switch v.Kind() {
@@ -369,8 +374,28 @@ func downstream(cmds []ast.Command, comments []*ast.Comment, r wproto.Req, resp 
 			}
 			n++
 		}
+		// style fields are bit sets: any combination of the five styles (and
+		// of bits that are no style) is a Config as well
+		for k := 0; k < 48; k++ {
+			var b bytes.Buffer
+			rc := rawConfig(int(r.Lo)*48 + k)
+			rc.Fprint(&b, c)
+			n++
+		}
 	}
-	envs := []*interp.ExecEnv{interp.NewExecEnv("sh", "p1", "p 2"), interp.NewExecEnv("sh")}
+	// every node can be printed on its own, not only commands
+	for ni, nd := range nodes {
+		if ni >= 400 {
+			break
+		}
+		for k := 0; k < 3; k++ {
+			var b bytes.Buffer
+			nc := config((int(r.Lo)+ni*37+k*85)%256 | int(r.Width)<<8)
+			nc.Fprint(&b, nd)
+			n++
+		}
+	}
+	envs := []*interp.ExecEnv{interp.NewExecEnv("sh", "p1", "", "p 2", ""), interp.NewExecEnv("sh")}
 	for _, e := range envs {
 		e.Set("x", "a b")
 		e.Set("HOME", "/nonexistent")
@@ -408,6 +433,23 @@ func downstream(cmds []ast.Command, comments []*ast.Comment, r wproto.Req, resp 
 		}
 	}
 	return n
+}
+
+var rawStyles = []printer.Style{0, printer.Tab, printer.Space, printer.Newline, printer.Before, printer.After, printer.Before | printer.After, printer.Tab | printer.Space, 31, 1 << 5, printer.Before | printer.Space, printer.After | printer.Newline | printer.Space}
+
+// rawConfig is the i-th of the configurations whose style fields are arbitrary bit sets.
+func rawConfig(i int) printer.Config {
+	n := len(rawStyles)
+	pick := func() printer.Style {
+		s := rawStyles[i%n]
+		i /= n
+		return s
+	}
+	var c printer.Config
+	c.Redir, c.Assign, c.Indent, c.Do, c.Then = pick(), pick(), pick(), pick(), pick()
+	c.Case = i%2 == 1
+	c.Width = []int{0, 2, 4}[i/2%3]
+	return c
 }
 
 func config(i int) printer.Config {
